@@ -16,7 +16,7 @@ Print Assumptions C11_prog_falls_off_iff.
 
 (* getter-return, current code: a getter whose body can fall off its end is reported *)
 Theorem C11_getter_sound_current : forall p,
-  wf p -> no_fn_stmt p -> p_getter p = true -> prog_falls_off_end p -> In (p_start p) (getter_return current p).
+  wf p -> fn_stmt_safe p -> p_getter p = true -> prog_falls_off_end p -> In (p_start p) (getter_return current p).
 Proof. exact SoundnessCurrent.C11_getter_sound_current. Qed.
 Print Assumptions C11_getter_sound_current.
 
@@ -28,7 +28,7 @@ Print Assumptions C11_getter_sound_repaired.
 (* no-fallthrough, current code: for every entered switch at any depth and each of its cases, a "stops
    execution" claim on a top-level statement of the case implies that the case cannot complete normally *)
 Theorem C11_case_sound_current : forall p sw cs b,
-  wf p -> no_fn_stmt p ->
+  wf p -> fn_stmt_safe p ->
   sub_stmts (SSwitch sw cs) (p_body p) -> prog_enters p sw -> case_in b cs ->
   any_stops (analyze current p) b = true -> ~ exec_l b Normal.
 Proof. exact SoundnessCurrent.C11_case_sound_current. Qed.
@@ -43,13 +43,13 @@ Print Assumptions C11_case_sound_repaired.
 
 (* known finding, class C *)
 Theorem C11_getter_known_class_C :
-  exists p, wf p /\ ~ no_fn_stmt p /\ p_getter p = true /\ prog_falls_off_end p /\ ~ In (p_start p) (getter_return current p).
+  exists p, wf p /\ ~ fn_stmt_safe p /\ p_getter p = true /\ prog_falls_off_end p /\ ~ In (p_start p) (getter_return current p).
 Proof. exact SoundnessCurrent.C11_getter_known_class_C. Qed.
 Print Assumptions C11_getter_known_class_C.
 
 (* switch (d) { case 0: function v5() { return 1; } case 1: v999(); } *)
 Theorem C11_case_known_class_C :
-  exists p sw cs b, wf p /\ ~ no_fn_stmt p /\ sub_stmts (SSwitch sw cs) (p_body p) /\ prog_enters p sw /\ case_in b cs /\
+  exists p sw cs b, wf p /\ ~ fn_stmt_safe p /\ sub_stmts (SSwitch sw cs) (p_body p) /\ prog_enters p sw /\ case_in b cs /\
                     any_stops (analyze current p) b = true /\ exec_l b Normal.
 Proof. exact SoundnessCurrent.C11_case_known_class_C. Qed.
 Print Assumptions C11_case_known_class_C.
